@@ -6,6 +6,7 @@ package main
 import (
 	"fmt"
 	"sort"
+	"strings"
 	"testing"
 
 	"pgregory.net/rapid"
@@ -173,6 +174,10 @@ func judgeC12(c ReqCase) *Fail {
 	if f != nil {
 		return f
 	}
+	if !out.OK && strings.Contains(out.Err, "unsupported value") && overflowExcused(body) {
+		st.inc("skipped-exp-overflow") // the documented exponential anchoring formula is not a finite float64 here
+		return nil
+	}
 	if !out.OK {
 		return failf("aspect-accepted", "valid aspect-elimination request rejected: %s", out.Err)
 	}
@@ -186,6 +191,10 @@ func judgeC12(c ReqCase) *Fail {
 		return failf("series-ends", "the generated series does not end within %d levels", seriesCap)
 	}
 	randomOrder, _ := v.MP["randomAlternativesOrdering"].(bool)
+	consReq, cf := consideredInRequestOrder(v, snap)
+	if cf != nil {
+		return cf
+	}
 	matched := false
 	var why string
 	var bestLeft []SnapAlt
@@ -203,7 +212,7 @@ func judgeC12(c ReqCase) *Fail {
 		try := func(p []int) bool {
 			order := make([]SnapAlt, len(p))
 			for i, x := range p {
-				order[i] = snap.Cons[x]
+				order[i] = consReq[x]
 			}
 			left, elim, lr := refAspect(corder, levels, order, mg)
 			if wy := matchAspect(left, elim, r); wy == "" {
@@ -401,6 +410,10 @@ func judgeC13(c ReqCase) *Fail {
 	if f != nil {
 		return f
 	}
+	if !out.OK && strings.Contains(out.Err, "unsupported value") && overflowExcused(body) {
+		st.inc("skipped-exp-overflow") // the documented exponential anchoring formula is not a finite float64 here
+		return nil
+	}
 	if !out.OK {
 		return failf("satisfaction-accepted", "valid satisfaction request rejected: %s", out.Err)
 	}
@@ -411,17 +424,21 @@ func judgeC13(c ReqCase) *Fail {
 	}
 	randomOrder, _ := v.MP["randomAlternativesOrdering"].(bool)
 	cc := str(v.MP["currentChoice"])
+	cons, cf := consideredInRequestOrder(v, snap)
+	if cf != nil {
+		return cf
+	}
 	var first *SnapAlt
 	var rest []SnapAlt
 	if cc != "" {
 		first = snap.alt(cc)
-		for _, a := range snap.Cons {
+		for _, a := range cons {
 			if a.Id != cc {
 				rest = append(rest, a)
 			}
 		}
 	} else {
-		rest = append(rest, snap.Cons...)
+		rest = append(rest, cons...)
 	}
 	matched := false
 	var why string
